@@ -92,6 +92,13 @@ func genC11(g *gen) {
 		}
 		g.prog.Threads = append(g.prog.Threads, th)
 	}
+	if g.chance(0.3) {
+		// servers that crash (and stay down) or connections that are reset in the middle of a call
+		c.FaultFree = false
+		for k := 1 + g.r.IntN(c.NServers); k > 0; k-- {
+			g.prog.Faults = append(g.prog.Faults, &Fault{Kind: pick(g.r, "crash", "crash", "reset"), Srv: g.r.IntN(c.NServers), Mgr: -1, AtStep: 30 + g.r.IntN(400)})
+		}
+	}
 }
 
 // corrState is a published state of a correctable call.
@@ -364,6 +371,22 @@ func (w *World) checkCorrHistory(c *Call, fin map[*Call]Observation) {
 				w.violate("C11", "completion-unjustified", "", "%s completed with (%v) but neither did the quorum function report done, nor had every node answered / failed, nor had the context ended", id, o.Err)
 			}
 		}
+	}
+	if c.DoneSeq == 0 && c.CtxKind == "bg" && c.Info.Kind == "cstream" && len(c.Targets) > 0 {
+		// a server-stream call completes when every node has failed: here, when every targeted
+		// server has crashed (and stayed down) after the call was made
+		allDown := true
+		for _, si := range c.Targets {
+			if w.servers[si].Up {
+				allDown = false
+			}
+		}
+		if allDown {
+			w.rule("C11.stream-completes-when-all-nodes-failed", false)
+			w.violate("C11", "stream-not-completed", "", "%s has not completed although every targeted server has crashed: %s", id, w.stuckReport())
+		}
+	} else if c.DoneSeq != 0 && c.Info.Kind == "cstream" && c.CtxKind == "bg" {
+		w.rule("C11.stream-completes-when-all-nodes-failed", true)
 	}
 	if c.DoneSeq == 0 && c.CtxKind == "bg" && c.Info.Kind == "corr" && c.ReqVal != "" {
 		// a non-stream correctable must complete once every node has answered
